@@ -522,6 +522,32 @@ def checkAll (cfg : Cfg) (rounds : List Round) (obs : List (List Ev)) (crash : O
   let a := match crash with
     | some w => a0.err "C03" s!"MessageManager.run() was terminated by {w}"
     | none => a0
+  -- a manager that dies in the middle of an operation leaves that operation's obligations unmet for everybody else
+  let a := match crash with
+    | none => a
+    | some w =>
+      let lastEvs := obs.getLast?.getD []
+      let a := if !(closes lastEvs).isEmpty || !(wfails lastEvs).isEmpty then
+          a.err "C07" s!"the manager was terminated by {w} while it handled the departure of connection {(wfails lastEvs ++ closes lastEvs).head?.getD 0}: the remaining clients are no longer served"
+        else a
+      let a := if !(wfails lastEvs).isEmpty then
+          a.err "C14" s!"the manager was terminated by {w} while it handled the failed write to connection {(wfails lastEvs).head?.getD 0}: the failure is not reported and the other subscribers are no longer served"
+        else a
+      -- the frame being processed when it died
+      let lastRd := (lastEvs.filterMap (fun (e : Ev) => match e with | Ev.rd u => some u | _ => none)).getLast?
+      let crashRound := rounds.drop (obs.length - 2)
+      match lastRd, crashRound.head? with
+      | some u, some r =>
+        (match (r.reads.filter (fun (x : Read) => x.uid == u)).getLast? with
+         | some rd =>
+           if !isControl cfg rd.h.mtype && rd.hdrOk && !rd.hdrErr then
+             a.err "C01" s!"the manager was terminated by {w} while it forwarded frame {rd.h.k} (type {rd.h.mtype}): delivery to the eligible subscribers was not completed"
+           else if rd.h.mtype == cfg.mtSubscribe || rd.h.mtype == cfg.mtUnsubscribe || rd.h.mtype == cfg.mtPause ||
+                   rd.h.mtype == cfg.mtResume || rd.h.mtype == cfg.mtConnect then
+             a.err "C19" s!"the manager was terminated by {w} while it processed the control frame {rd.h.k} from {u}"
+           else a
+         | none => a)
+      | _, _ => a
   let a := a.chk (obs.length == rounds.length + 1 || crash.isSome) "C03" "the manager did not play every round of the script"
   let pairs := List.zip rounds (obs.drop 1)
   let a := pairs.foldl (fun a p => round cfg a p.1 p.2) a
